@@ -161,7 +161,7 @@ def run(ctx: Ctx) -> None:
     from ahbicht.models.validation_values import RequirementValidationValue as R
     from ahbicht.validation.validation import validate_data_element_freetext
 
-    ctx.rule = ("deep AHBs with 2-30 free-text elements carrying mostly different inputs (some absent / empty / padded / equal to another element's) and 1-3 format keys each; format evaluators (four async ones that yield, two plain ones that also read the context variable themselves) that yield "
+    ctx.rule = ("deep AHBs with 2-30 free-text elements carrying mostly different inputs (some absent / empty / padded / equal to another element's) and 1-3 format keys each; every fifth run validates one element on its own and then the tree inside one task; format evaluators (four async ones that yield, two plain ones that also read the context variable themselves) that yield "
                 "0-4 times per call under 10/60 schedules; every element's result compared with validating it alone; one traced run per AHB decided by the Lean driver; "
                 "distinct = (AHB, schedule)")
     ctx.coverage["generated_changed"] = extract.regenerate([])
@@ -197,7 +197,24 @@ def run(ctx: Ctx) -> None:
             alone[d["disc"]] = V.canon_result(asyncio.run(validate_data_element_freetext(el, R.IS_REQUIRED, True)))
         for k in range(ctx.pick(10, 60)):
             SCHED.update({"n": 4 if k else 0, "rng": rng})
-            im = V.run_validation(spec, cer, True)
+            if k % 5 == 4 and des:
+                # history inside ONE task / context: an element is validated on its own first (its input stays behind in the caller's context), then the tree
+                first = rng.choice(des)
+
+                async def both():
+                    from ahbicht.validation.validation import validate_deep_anwendungshandbuch
+                    one = V.to_maus({"lines": [{"t": "g", "disc": "g", "expr": {"parts": [["X", "X", None]]}, "groups": [], "segs": [{"disc": "s", "expr": {"parts": [["X", "X", None]]}, "des": [first]}]}]})
+                    await validate_data_element_freetext(one.lines[0].segments[0].data_elements[0], R.IS_REQUIRED, True)
+                    return await validate_deep_anwendungshandbuch(V.to_maus(spec), soll_is_required=True)
+
+                V.set_cer(cer)
+                try:
+                    im = {"results": [V.canon_result(r) for r in asyncio.run(both())]}
+                except BaseException as e:  # pylint:disable=broad-except
+                    im = {"err": type(e).__name__}
+                ctx.count("history", "element alone, then the tree, in one context")
+            else:
+                im = V.run_validation(spec, cer, True)
             ctx.case((str(spec), k), nontrivial=len(des) > 1)
             ctx.count("elements", str(min(len(des), 30) // 5 * 5))
             if "err" in im:
